@@ -20,13 +20,23 @@ PROP = {'title': 'Vector, dim and matrix arithmetic obeys the exact ring and mod
                            'harness/C14_rect_b.cpp', 'harness/C14_rect_c.cpp', 'harness/C14_rect_d.cpp', 'harness/C14_vec.cpp',
                            'harness/C14_dim.cpp', 'harness/C14_narrow.cpp', 'harness/C14_narrow_mixed_a.cpp', 'harness/C14_narrow_mixed_b.cpp',
                            'harness/C14_strided_vec.cpp', 'harness/C14_strided_vec4.cpp', 'harness/C14_strided_dim.cpp',
-                           'harness/C14_strided_mat2.cpp', 'harness/C14_strided_mat3.cpp'],
+                           'harness/C14_strided_mat2.cpp', 'harness/C14_strided_mat3.cpp', 'harness/C14_shapes.cpp'],
+               'libs': [],
+               'flavour': 'asan'},
+              # second binary: every product whose left operand has more rows than columns, and the mixed-scalar
+              # matrix*vector shard; kept apart so that a change breaking only these instantiations (each class is
+              # also a compile probe) does not take the run-time verdict of the first binary with it
+              {'name': 'C14b',
+               'sources': ['harness/C14b.cpp', 'harness/C14b_shapes.cpp', 'harness/C14b_narrow.cpp'],
                'libs': [],
                'flavour': 'asan'}],
  'compile_probes': [{'name': 'vector_less_mixed_storage', 'source': 'harness/C14_probe_less.cpp', 'flags': []},
                     {'name': 'matrix_vector_mixed_scalars', 'source': 'harness/C14_probe_mixed.cpp', 'flags': ['-DC14_PROBE_KIND=1']},
                     {'name': 'matrix_arithmetic_mixed_scalars', 'source': 'harness/C14_probe_mixed.cpp', 'flags': ['-DC14_PROBE_KIND=2']},
-                    {'name': 'vector_dim_arithmetic_mixed_scalars', 'source': 'harness/C14_probe_mixed.cpp', 'flags': ['-DC14_PROBE_KIND=3']}],
+                    {'name': 'vector_dim_arithmetic_mixed_scalars', 'source': 'harness/C14_probe_mixed.cpp', 'flags': ['-DC14_PROBE_KIND=3']},
+                    {'name': 'matrix_product_rows_lt_inner', 'source': 'harness/C14_probe_products.cpp', 'flags': ['-DC14_PROBE_KIND=1']},
+                    {'name': 'matrix_product_rows_gt_inner', 'source': 'harness/C14_probe_products.cpp', 'flags': ['-DC14_PROBE_KIND=2']},
+                    {'name': 'matrix_product_rows_eq_inner_nonsquare', 'source': 'harness/C14_probe_products.cpp', 'flags': ['-DC14_PROBE_KIND=3']}],
  'deadline': {'quick': 300, 'thorough': 1500},
  'rule': 'nested loops over explicit families, nothing sampled. 2x2: all 256 matrices over {-1,0,1,2} (unary laws, scalars -9..9), all '
          '65536 pairs (+,-,==,!=, product in the 4 static/view storage combinations, (AB)^T=B^T A^T, det and adjugate (anti)multiplicative), '
@@ -60,13 +70,20 @@ PROP = {'title': 'Vector, dim and matrix arithmetic obeys the exact ring and mod
          '+ - * / unary-, scalar ops, compound assignment, assignment and construction in both directions, structure_cast, narrow_cast, push_back, '
          'to_dim/to_vector, dot, cross, length_square, contents, at/named/get_unsafe, matrix at_r/at_r_c/mRC/row views, transpose, product, '
          'determinant, adjugate, inverse, delete_row_and_column, identity, matrix*vector; after every operation the whole exact-size heap buffer is '
-         'compared (decoys unchanged, read-only operations write nothing)',
+         'compared (decoys unchanged, read-only operations write nothing). '
+         'Product shapes (C14_shapes.hpp): RxK * KxC for all 64 shape triples R,K,C in 1..4, operands = every matrix over {-1,0,2} for shapes with '
+         '<= 4 entries, else <= 1 non-zero entry from {-1,2} + two distinct-entry matrices + all-ones; A*B (static and view) against the plain-array '
+         'product, (A*B)*v = A*(B*v) for two vectors, I*A = A and A*I = A for all 16 shapes, associativity through 1x2.2x3.3x4; non-trivial = the '
+         'last inner index contributes to the product. Binary C14b holds exactly the instantiations with rows(left) > inner dimension (24 shape '
+         'triples, right identity of the 6 tall shapes, 3x2.2x3 / 4x3.3x4 / column.row product groups, their associativity and matrix*vector laws, '
+         'narrow column.row products) and matrix<Left>*vector<Right> with Left != Right',
  'assumptions': ['narrow/mixed scalars: only operators whose declared result type is decltype(L op R) are checked on values that leave the '
                  'operand range; functions returning the operand type T (dot, determinant, cross, compound assignment, transform_point) narrow by '
                  'design and are checked with int only; unsigned short / unsigned int mixing is excluded (promotion to int overflows / modular '
                  'arithmetic is not an exact scalar)',
-                 'mixed Left != Right matrix*vector is both evaluated in the binary and registered as compile probe matrix_vector_mixed_scalars: a '
-                 'change that stops it compiling is reported through the probe (the binary then does not build)',
+                 'two binaries: C14b contains every product whose left operand has more rows than columns and the mixed-scalar matrix*vector '
+                 'shard; each of these instantiation classes is also a compile probe (matrix_product_rows_gt_inner, matrix_vector_mixed_scalars), so '
+                 'a change that only breaks their compilation is reported as compile:<name> while the binary C14 still runs',
                  'assignment between two views of the same storage type is the implicit copy assignment of object (it rebinds the view) and is '
                  'not exercised; stride and pitch are therefore part of the harness storage types',
                  'law families use int (plus long for mixed-type operators and structure_cast) with entries small enough that no intermediate '
